@@ -152,6 +152,58 @@ class Result:
                 self.samples.append(case)
 
 
+# --------------------------------------------------------------------------- stateful machines
+def log_machine_base():
+    """Base class for stateful checks: every rule funnels a JSON-able op through step(), which logs it, so the
+    shrunk failing history is a plain list that `replay_log` can re-execute without Hypothesis."""
+    from hypothesis.stateful import RuleBasedStateMachine
+
+    class LogMachine(RuleBasedStateMachine):
+        def __init__(self):
+            super().__init__()
+            self.log = []
+            self._failed = False
+            self.setup()
+
+        def setup(self):
+            pass
+
+        def apply(self, op):  # pragma: no cover - overridden
+            raise NotImplementedError
+
+        def finish(self):
+            """final checks through the public API (called at teardown and at the end of a replay)"""
+
+        def step(self, op):
+            self.log.append(op)
+            try:
+                self.apply(op)
+            except Violation:
+                self._failed = True
+                raise
+
+        def info(self):
+            return {}
+
+        def teardown(self):
+            if not self._failed:
+                try:
+                    self.finish()
+                except Violation:
+                    self._failed = True
+                    raise
+
+    return LogMachine
+
+
+def replay_log(machine_cls, log):
+    m = machine_cls()
+    for op in log:
+        m.step(op)
+    m.finish()
+    return m.info()
+
+
 # --------------------------------------------------------------------------- findings
 def load_findings(prop: str):
     path = os.path.join(ROOT, 'known_findings.json')
@@ -297,18 +349,9 @@ def _run_machine(mod, sub, res, findings, seedval, n, tier, t0, budget_s):
             state['last'] = self
 
         def teardown(self):
-            try:
-                super().teardown()
-            finally:
-                if not getattr(self, '_failed', False):
-                    res.record({'log': self.log}, getattr(self, 'info', lambda: {})())
-
-        def check_invariants(self, *a, **k):
-            try:
-                return super().check_invariants(*a, **k)
-            except Violation:
-                self._failed = True
-                raise
+            super().teardown()
+            if not getattr(self, '_failed', False):
+                res.record({'log': self.log}, self.info())
 
     Wrapped.__name__ = M.__name__
     Wrapped.__qualname__ = M.__qualname__
